@@ -4,8 +4,8 @@ from .c05 import rand_tree
 from .c09 import classify_tree, small_trees
 
 VALUE_OPS = ["splitUniform", "splitNonUniform", "splitEqual", "splitUnEqual", "fiberSplitUniform", "truediv", "floordiv", "swizzle", "swap", "flatten", "fiberFlatten",
-             "merge", "updateCoords", "updatePayloads", "add", "mul", "addscalar", "mulscalar", "copy", "deepcopy", "fiberDeepcopy", "fromFiberOwned"]
-OBSERVERS = ["getPayload", "iterate", "coiterate", "compare", "queries", "print", "dump", "uncompress", "footprint", "renderTree", "renderUncompressed", "renderTensor"]
+             "merge", "updateCoords", "updatePayloads", "add", "mul", "addscalar", "mulscalar", "copy", "deepcopy", "fiberDeepcopy", "fromFiberOwned", "swizzlePartial"]
+OBSERVERS = ["getPayload", "iterate", "coiterate", "compare", "queries", "print", "dump", "uncompress", "footprint", "renderTree", "renderUncompressed", "renderTensor", "renderTreeHL", "renderUncompressedHL", "renderTensorHL"]
 
 
 def run(ctx):
@@ -19,12 +19,12 @@ def run(ctx):
     n = 120 if ctx.quick else 1500
     trees = []
     for _ in range(n):
-        depth = rng.choice([1, 2, 2, 3])
-        trees.append((depth, rand_tree(rng, 4, depth, pz=0.0, pabs=0.3) if rng.random() < 0.7 else rand_tree(rng, 4, depth)))
+        depth = rng.choice([1, 2, 2, 3, 4])
+        trees.append((depth, rand_tree(rng, 4 if depth < 4 else 2, depth, pz=0.0, pabs=0.3) if rng.random() < 0.7 else rand_tree(rng, 4 if depth < 4 else 2, depth)))
     for depth, t in trees:
         t2 = rand_tree(rng, 4, depth, pz=0.1, pabs=0.4)
         for op in VALUE_OPS:
-            need2 = op in ("swap", "flatten", "fiberFlatten", "merge", "swizzle")
+            need2 = op in ("swap", "flatten", "fiberFlatten", "merge", "swizzle", "swizzlePartial")
             if need2 and depth < 2:
                 continue
             if op in ("add", "mul", "addscalar", "mulscalar", "truediv", "floordiv") and depth != 1:
@@ -32,8 +32,9 @@ def run(ctx):
             d = rng.randint(0, depth - 2) if need2 else rng.randint(0, depth - 1)
             if classify_tree(t) == "ghost" and (need2 or op.startswith("split") or op == "fiberSplitUniform"):
                 continue          # *Below transforms on 'ghost' sub-fibers: C09 / C08 known findings, not an aliasing question
-            cases.append({"kind": "value", "op": op, "tree": t, "tree2": t2, "depth": depth, "d": d, "step": rng.randint(1, 3), "style": rng.choice(["tuple", "pair"])})
-        obs = OBSERVERS if not ctx.quick else rng.sample(OBSERVERS[:9], 5) + rng.sample(OBSERVERS[9:], 1)
+            cases.append({"kind": "value", "op": op, "tree": t, "tree2": t2, "depth": depth, "d": d, "step": rng.randint(1, 3), "style": rng.choice(["tuple", "pair"]),
+                          "fdflt": rng.choice([0, 0, 0.5]) if op not in ("add", "mul", "addscalar", "mulscalar", "truediv", "floordiv") else 0})
+        obs = OBSERVERS if not ctx.quick else rng.sample(OBSERVERS[:9], 5) + rng.sample(OBSERVERS[9:], 2)
         for op in obs:
             cases.append({"kind": "observer", "op": op, "tree": t, "tree2": t2, "depth": depth})
     part = family.run_family(ctx, "C10", cases, "harness.exec_alias", "AliasTrace.tla", "AliasTrace.cfg",
